@@ -7,6 +7,7 @@ import JumanjiModel.Env.PacMan.BoundsLemmas
 import JumanjiModel.Env.PacMan.ConsistentLemmas
 import JumanjiModel.Env.PacMan.MazeLemmas
 import JumanjiModel.Gen.PacManMaze
+import JumanjiModel.Env.PacMan.SpecLemmas
 open Jm PacMan
 
 namespace Props.C04
@@ -24,6 +25,38 @@ theorem pacman_step_agrees (s : State) (a : Nat) (ha : a ≤ 4)
     (hs : Jx.Grid.shaped s.grid (xSize s.grid) (ySize s.grid) = true) (hp : Inside s)
     (hX : 2 ≤ xSize s.grid) (hY : 2 ≤ ySize s.grid) :
     legal s a ↔ nextPlayer s (a : Int) ≠ s.player := PacMan.legal_iff_moves s a ha hs hp hX hY
+
+/-- the same about the `step` function itself (wave 3; `pacman_step_agrees` speaks about the helper `nextPlayer`): for
+every action 0..4, every time limit and every ghost draw, `step` moves the player exactly when the rules allow the
+action, and leaves it on its cell (the environment treated the action as a no-op) exactly when they do not -/
+theorem pacman_step_moves_iff_legal (tl : Int) (s : State) (a : Nat) (d : Draw) (ha : a ≤ 4)
+    (hs : Jx.Grid.shaped s.grid (xSize s.grid) (ySize s.grid) = true) (hp : Inside s)
+    (hX : 2 ≤ xSize s.grid) (hY : 2 ≤ ySize s.grid) :
+    (legal s a ↔ (step tl s (a : Int) d).1.player ≠ s.player) ∧
+    (¬ legal s a ↔ (step tl s (a : Int) d).1.player = s.player) := by
+  rw [PacMan.step_player]
+  have h := PacMan.legal_iff_moves s a ha hs hp hX hY
+  exact ⟨h, by rw [h]; exact Decidable.not_not⟩
+
+/-- whole episodes (wave 3): the hypotheses of `pacman_mask_iff_legal` hold in EVERY state of EVERY episode of the shipped
+maze (start state = what the real `reset` returns; any actions, any time limit, admissible ghost draws), so there every
+mask bit is set exactly when the rules allow the action: the shipped maze is rectangular, 0/1, its borders mirror each
+other (checked by the kernel), it never changes, and the player stays inside it -/
+theorem pacman_mask_iff_legal_along (tl : Int) (ads : List (Int × Draw))
+    (hv : validRun tl (PacMan.reset Gen.PacManMaze.table.toState).1 ads = true) :
+    ∀ s' ∈ trace tl (PacMan.reset Gen.PacManMaze.table.toState).1 ads, ∀ a : Nat, a ≤ 4 →
+      ((maskOf s').getD a false = true ↔ legal s' a) := by
+  have hok : MazeTableOK Gen.PacManMaze.table := PacMan.tableCheck_sound _ _ Gen.PacManMaze.table_ok
+  have hb : BorderSymmetric Gen.PacManMaze.table.grid := by decide +kernel
+  exact PacMan.mask_iff_legal_along tl ads _ (PacMan.reset_consistent _ hok).1 (PacMan.reset_consistent _ hok).2
+    hok.binary hb hv
+
+/-- the same for ANY maze table satisfying the C10 specification whose borders mirror each other -/
+theorem pacman_mask_iff_legal_along_of_table (t : MazeTable) (h : MazeTableOK t) (hb : BorderSymmetric t.grid) (tl : Int)
+    (ads : List (Int × Draw)) (hv : validRun tl (PacMan.reset t.toState).1 ads = true) :
+    ∀ s' ∈ trace tl (PacMan.reset t.toState).1 ads, ∀ a : Nat, a ≤ 4 →
+      ((maskOf s').getD a false = true ↔ legal s' a) :=
+  PacMan.mask_iff_legal_along tl ads _ (PacMan.reset_consistent _ h).1 (PacMan.reset_consistent _ h).2 h.binary hb hv
 
 def pacmanWit : State :=
   { grid := [[0, 0, 0], [0, 1, 1], [0, 0, 0]], pellets := 0, frightened := 0, pelletLocs := [], powerUps := [],
@@ -46,6 +79,13 @@ theorem pacman_illegal_ignored (tl : Int) (s : State) (a : Nat) (d : Draw) (ha :
     (hs : Jx.Grid.shaped s.grid (xSize s.grid) (ySize s.grid) = true) (hp : Inside s)
     (hX : 2 ≤ xSize s.grid) (hY : 2 ≤ ySize s.grid) (hill : ¬ legal s a) :
     IllegalIgnored s (step tl s (a : Int) d).1 := PacMan.illegal_ignored tl s a d ha hs hp hX hY hill
+
+/-- the same from the invariant that `reset` establishes and every step preserves (wave 3; `Consistent`:
+`pacman_reset_consistent`, `pacman_trace_consistent`): in every consistent state of a maze with at least two rows and
+columns, every illegal action 0..4 is ignored — hence in every state of every episode of the shipped maze -/
+theorem pacman_illegal_ignored_of_consistent (tl : Int) (s : State) (a : Nat) (d : Draw) (ha : a ≤ 4)
+    (hC : Consistent s) (hX : 2 ≤ xSize s.grid) (hY : 2 ≤ ySize s.grid) (hill : ¬ legal s a) :
+    IllegalIgnored s (step tl s (a : Int) d).1 := PacMan.illegal_ignored_of_consistent tl s a d ha hC hX hY hill
 end Props.C05
 
 namespace Props.C07
@@ -206,6 +246,9 @@ example : validRun 1000 (PacMan.reset Gen.PacManMaze.table.toState).1
     [(1, ⟨Gen.PacManMaze.table.ghosts, [4, 4, 4, 4]⟩), (3, ⟨Gen.PacManMaze.table.ghosts, [4, 4, 4, 4]⟩)] = true := by
   decide +kernel
 example : validRun 10 pacmanCEx [(1, pacmanCDraw)] = true := by decide +kernel
+/-- the hypotheses of `Props.C05.pacman_illegal_ignored_of_consistent` are satisfiable: in the corridor example "row − 1"
+(action 0) runs into a wall — illegal — and the state is consistent on a maze with ≥ 2 rows and columns -/
+example : Consistent pacmanCEx ∧ ¬ legal pacmanCEx 0 ∧ 2 ≤ xSize pacmanCEx.grid ∧ 2 ≤ ySize pacmanCEx.grid := by decide
 end Props.C07
 
 namespace Props.C11
@@ -213,12 +256,61 @@ namespace Props.C11
 theorem pacman_time_limit (tl : Int) (s : State) (a : Int) (d : Draw) :
     (step tl s a d).1.stepCount = s.stepCount + 1 ∧
     (s.stepCount + 1 ≥ tl → (step tl s a d).2.stepType = .last) := PacMan.time_limit tl s a d
+
+/-- both directions (wave 3): `step` answers LAST exactly when the player is dead in the successor, or no pellet is
+left, or the limit is reached — never earlier; any state, action value and ghost draw -/
+theorem pacman_last_iff (tl : Int) (s : State) (a : Int) (d : Draw) :
+    (step tl s a d).2.stepType = .last ↔
+      (((step tl s a d).1.dead = true ∨ (step tl s a d).1.pellets = 0) ∨ tl ≤ s.stepCount + 1) :=
+  PacMan.step_last_iff tl s a d
+
+/-- PacMan as an abstract step system (Core/Episode.lean; the ghost draw is part of the action) with the two-sided
+single-step law -/
+theorem pacman_exact (tl : Int) :
+    Ep.Exact (Ep.ofStep (fun (s : State) (ad : Int × Draw) => step tl s ad.1 ad.2) (·.stepCount)) (fun _ => True)
+      (fun s ad => (step tl s ad.1 ad.2).1.dead = true ∨ (step tl s ad.1 ad.2).1.pellets = 0) .ge tl :=
+  Ep.Exact.of_step (fun _ _ h => h) (fun s ad _ => (PacMan.time_limit tl s ad.1 ad.2).1)
+    (fun s ad _ => PacMan.step_last_iff tl s ad.1 ad.2)
+
+/-- whole episodes: from any state with counter 0, along ANY list of (action, ghost draw) pairs of length ≥ time_limit
+on which no step before the limit kills the player or eats the last pellet, the first LAST timestep is emitted exactly
+at step number `time_limit` -/
+theorem pacman_episode_ends_exactly_at_limit (tl : Int) (hT : 0 < tl) (s : State) (h0 : s.stepCount = 0)
+    (ads : List (Int × Draw)) (hlen : tl ≤ ads.length)
+    (hno : ∀ (j : Nat) (ad : Int × Draw), (j : Int) + 1 < tl → ads[j]? = some ad →
+      let sj := (Ep.ofStep (fun (s : State) (ad : Int × Draw) => step tl s ad.1 ad.2) (·.stepCount)).stateAt s ads j
+      ¬ ((step tl sj ad.1 ad.2).1.dead = true ∨ (step tl sj ad.1 ad.2).1.pellets = 0)) :
+    Ep.firstLastTS ((Ep.rollout (fun (s : State) (ad : Int × Draw) => step tl s ad.1 ad.2) s ads).map (·.2))
+      = some tl.toNat :=
+  Ep.rollout_ends_exactly_at_limit (pacman_exact tl) hT s trivial h0 ads hlen hno
+
+-- three no-ops with limit 3 in the corridor example (the ghosts stay put, far from the player): MID, MID, LAST
+example : Ep.firstLastTS ((Ep.rollout (fun (s : State) (ad : Int × Draw) => step 3 s ad.1 ad.2)
+    { Props.C07.pacmanCEx with player := (1, 1), ghostStarts := [9, 9, 9, 9] }
+    [(4, ⟨[(3, 1), (3, 1), (3, 1), (3, 1)], [4, 4, 4, 4]⟩), (4, ⟨[(3, 1), (3, 1), (3, 1), (3, 1)], [4, 4, 4, 4]⟩),
+     (4, ⟨[(3, 1), (3, 1), (3, 1), (3, 1)], [4, 4, 4, 4]⟩)]).map (·.2)) = some 3 := by decide +kernel
 end Props.C11
 
 namespace Props.C12
 /-- the observation is the documented function of the successor state (copied fields + mask) -/
 theorem pacman_obs_faithful (tl : Int) (s : State) (a : Int) (d : Draw) :
     (step tl s a d).2.obs = observe (step tl s a d).1 := PacMan.obs_faithful tl s a d
+
+/-- at the strength of the RULES (wave 3; `observe` computes the mask with the L1 function `maskOf`): the mask shown in the
+observation emitted by `step` is exactly the set of moves the rules allow in the SUCCESSOR state — from every
+consistent state without duplicate pellets on a 0/1 maze whose borders mirror each other (all of which `reset`
+establishes for the shipped maze and every step preserves), any action value, any admissible ghost draw -/
+theorem pacman_obs_mask_documented (tl : Int) (s : State) (a : Int) (d : Draw) (hC : Consistent s)
+    (hN : (nonzero s.pelletLocs).Nodup) (hbin : BinaryCells s.grid) (hb : BorderSymmetric s.grid)
+    (hd : validGhostDraw s d = true) (b : Nat) (hb4 : b ≤ 4) :
+    ((step tl s a d).2.obs.mask.getD b false = true ↔ legal (step tl s a d).1 b) :=
+  PacMan.obs_mask_documented tl s a d hC hN hbin hb hd b hb4
+
+/-- the same at `reset` (wave 3): the FIRST timestep shows the documented function of the generated state (copied
+fields and the mask computed for it), and the reset state IS the generated state -/
+theorem pacman_reset_obs_faithful (g : State) :
+    (PacMan.reset g).2.obs = observe (PacMan.reset g).1 ∧ (PacMan.reset g).2.stepType = .first ∧
+    (PacMan.reset g).1 = g := PacMan.reset_obs_faithful g
 end Props.C12
 
 namespace Props.C01
@@ -262,4 +354,101 @@ example : BoundsInv pacmanBCfg pacmanBEx ∧ Consistent pacmanBEx := by decide
 /-- the bound of `player_locations.x` (the row) is attained: `x = x_size − 1`.  (The original tree declared
 `x ≤ y_size − 1`, `y ≤ x_size − 1` — maxima swapped; on the default 31 × 28 maze the player reaches row 28 > 27.) -/
 example : (observe pacmanBEx).player.1 = (pacmanBCfg.xSize : Int) - 1 := by decide
+
+/-! #### membership in the DECLARED spec (wave 3): structure, shapes, dtypes and bounds -/
+open Sp PzS
+
+/-- the model's specs against the table generated from the real spec objects of `PacMan()` (Gen/Specs.lean): every
+generated leaf is the model's, in the same order (the `grid` leaf, 31·28 cells, and `pellet_locations` are above the size
+limit of the generated table: they are compared with the real objects by the `pac_man.spec` op on every run, for every
+configuration of the adapter) -/
+theorem pacman_obsSpec_generated :
+    (prefixed "observation_spec." (obsSpec ⟨31, 28, 12⟩ Gen.PacManMaze.table.pellets.length)).filter
+        (fun e => decide (prod e.2.shape ≤ 160))
+      = declared "pacman" "observation_spec." ∧
+    [("action_spec", actionSpec)] = declared "pacman" "action_spec" ∧
+    [("reward_spec", PzS.rewardSpec)] = declared "pacman" "reward_spec" ∧
+    [("discount_spec", discountSpec)] = declared "pacman" "discount_spec" := by
+  refine ⟨by decide +kernel, by decide, by decide, by decide⟩
+
+/-- `reset` establishes the invariant `SpecInv` (consistent, no duplicate pellet, bounds invariant, four power-up rows,
+`nPellets` pellet rows) for EVERY maze table satisfying the C10 specification with four power-ups, and EVERY step — any
+action value, any time limit, any admissible ghost draw — preserves it -/
+theorem pacman_specInv_invariant :
+    (∀ (t : MazeTable) (tl : Int), MazeTableOK t → t.powerUps.length = 4 →
+      SpecInv ⟨xSize t.grid, ySize t.grid, tl⟩ t.pellets.length (PacMan.reset t.toState).1) ∧
+    (∀ (cfg : BCfg) (nP : Nat) (tl : Int) (s : State) (a : Int) (d : Draw), SpecInv cfg nP s →
+      validGhostDraw s d = true → SpecInv cfg nP (step tl s a d).1) :=
+  ⟨fun t tl h h4 => PacMan.reset_specInv t h h4 tl, fun cfg nP tl s a d hI hd => PacMan.step_specInv cfg nP tl s a d hI hd⟩
+
+/-- the `reset` observation is accepted by `observation_spec.validate` for EVERY admissible maze table with four
+power-ups: fields and order as declared; shapes `(x, y)`, `()`, `()`, `(4, 2)`, `(4, 2)`, `()`, `(nPellets, 2)`, `(5,)`,
+`()`; all int32 but the boolean mask; maze cells in [0, 1], player column in [0, y_size − 1], row in [0, x_size − 1] -/
+theorem pacman_reset_obs_valid (t : MazeTable) (h : MazeTableOK t) (h4 : t.powerUps.length = 4) (tl : Int) :
+    (obsSpec ⟨xSize t.grid, ySize t.grid, tl⟩ t.pellets.length).valid
+      (toNValue ⟨xSize t.grid, ySize t.grid, tl⟩ (PacMan.reset t.toState).2.obs) = true :=
+  PacMan.reset_obs_valid t h h4 tl
+
+/-- every `step` observation from a state satisfying the invariant: any action value, any time limit, any admissible
+ghost draw, up to and including the terminal step and beyond (no leaf of the declared spec depends on the counter) -/
+theorem pacman_step_obs_valid (cfg : BCfg) (nP : Nat) (tl : Int) (s : State) (a : Int) (d : Draw)
+    (hI : SpecInv cfg nP s) (hd : validGhostDraw s d = true) :
+    (obsSpec cfg nP).valid (toNValue cfg (step tl s a d).2.obs) = true := PacMan.step_obs_valid cfg nP tl s a d hI hd
+
+/-- composed, the shipped maze: every observation of every episode of `PacMan()` — start state = what the real `reset`
+returns (Gen/PacManMaze.lean), any actions, any time limit, admissible ghost draws — is a member of the declared spec:
+the reset observation and the observation emitted by any step from any state of the episode -/
+theorem pacman_obs_valid_along (tl : Int) (ads : List (Int × Draw))
+    (hv : validRun tl (PacMan.reset Gen.PacManMaze.table.toState).1 ads = true) :
+    (obsSpec ⟨31, 28, tl⟩ Gen.PacManMaze.table.pellets.length).valid
+      (toNValue ⟨31, 28, tl⟩ (PacMan.reset Gen.PacManMaze.table.toState).2.obs) = true ∧
+    ∀ s' ∈ trace tl (PacMan.reset Gen.PacManMaze.table.toState).1 ads, ∀ (a : Int) (d : Draw),
+      validGhostDraw s' d = true →
+      (obsSpec ⟨31, 28, tl⟩ Gen.PacManMaze.table.pellets.length).valid (toNValue ⟨31, 28, tl⟩ (step tl s' a d).2.obs) = true := by
+  have h4 : Gen.PacManMaze.table.powerUps.length = 4 := by decide
+  have hI := PacMan.reset_specInv Gen.PacManMaze.table Props.C10.pacman_default_maze_ok h4 tl
+  have hx : xSize Gen.PacManMaze.table.grid = 31 := by decide
+  have hy : ySize Gen.PacManMaze.table.grid = 28 := by decide
+  rw [hx, hy] at hI
+  refine ⟨PacMan.obs_valid _ _ _ hI, ?_⟩
+  intro s' hs' a d hd
+  exact PacMan.step_obs_valid _ _ tl s' a d (PacMan.trace_specInv _ _ tl ads _ hI hv s' hs') hd
+
+/-- what membership means: `validate` accepts an observation ONLY IF the maze has `x_size` rows and `x_size · y_size`
+cells, all 0/1, the player's row is in [0, x_size − 1] and its column in [0, y_size − 1], and there are four ghost
+rows, four power-up rows, `nPellets` pellet rows and five mask bits -/
+theorem pacman_obs_valid_only (cfg : BCfg) (nP : Nat) (o : Obs) (h : (obsSpec cfg nP).valid (toNValue cfg o) = true) :
+    List.length o.grid = cfg.xSize ∧ (List.flatten o.grid).length = cfg.xSize * cfg.ySize ∧
+    (∀ v ∈ List.flatten o.grid, v = 0 ∨ v = 1) ∧
+    (0 ≤ o.player.1 ∧ o.player.1 ≤ (cfg.xSize : Int) - 1) ∧ (0 ≤ o.player.2 ∧ o.player.2 ≤ (cfg.ySize : Int) - 1) ∧
+    o.ghosts.length = 4 ∧ o.powerUps.length = 4 ∧ o.pelletLocs.length = nP ∧ o.mask.length = 5 :=
+  PacMan.obs_valid_only cfg nP o h
+
+/-- the corridor example (3 × 4, four ghosts, one power-up row short of four → padded here) satisfies the invariant and
+its observation is accepted; with the player's row and column exchanged in the bounds (the defect of the original
+tree: `x ≤ y_size − 1`, `y ≤ x_size − 1`) the observation of `pacmanBEx` — player on row 2 of a 3 × 4 maze, column 3 —
+would be rejected: column 3 > x_size − 1 = 2 -/
+example : SpecInv ⟨3, 4, 5⟩ 3 { Props.C07.pacmanCEx with powerUps := [(3, 1), (0, 0), (0, 0), (0, 0)] } ∧
+    (obsSpec ⟨3, 4, 5⟩ 3).valid (toNValue ⟨3, 4, 5⟩
+      (observe { Props.C07.pacmanCEx with powerUps := [(3, 1), (0, 0), (0, 0), (0, 0)] })) = true ∧
+    (obsSpec ⟨3, 4, 5⟩ 2).valid (toNValue ⟨3, 4, 5⟩ (observe { pacmanBEx with powerUps := [(0, 0), (0, 0), (0, 0), (0, 0)] })) = true ∧
+    (obsSpec ⟨4, 3, 5⟩ 2).valid (toNValue ⟨4, 3, 5⟩ (observe { pacmanBEx with powerUps := [(0, 0), (0, 0), (0, 0), (0, 0)] })) = false := by
+  decide +kernel
+
+/-- `action_spec.generate_value()` = 0 is a member of the well-formed `DiscreteArray(5)`, and `step` answers it in EVERY
+state, for every time limit and ghost draw, with a protocol-conform timestep -/
+theorem pacman_accepts_generate_value (tl : Int) (s : State) (d : Draw) :
+    actionSpec.WF = true ∧ actionSpec.valid actionSpec.generate = true ∧
+    actionSpec.generate = ⟨[], .int32, [0]⟩ ∧ StepOK none false (step tl s 0 d).2 = true :=
+  PacMan.accepts_generate_value tl s d
+
+/-- reward and discount of every `step` (ALL states, actions, draws) are accepted by `reward_spec` / `discount_spec` -/
+theorem pacman_reward_discount_valid (tl : Int) (s : State) (a : Int) (d : Draw) :
+    PzS.rewardSpec.valid (scalarArr (step tl s a d).2.reward) = true ∧
+    discountSpec.valid (scalarArr (step tl s a d).2.discount) = true := by
+  have hc : ∀ (b : Bool) (x : Rat) (o : Obs), StepOK none false (condLast b [x] o) = true := by
+    intro b x o; cases b <;> rfl
+  refine stepOK_reward_discount_valid false _ ?_
+  unfold step
+  exact hc _ _ _
 end Props.C01
